@@ -63,13 +63,36 @@ def scenarios(quick: bool) -> list[tuple[dict, int]]:
     return sc
 
 
+def bfs_scenarios(quick: bool) -> list[dict]:
+    """State-hashing runs: ANY number of deviations of the listed kinds (the DFS above bounds their number, not their kind)."""
+    sc = []
+    hard = ("drop", "dup", "wfail", "disc")
+    for cmd, tos in (("rq30c9_01", (0.5001, 1.5001, 20.0) if quick else T_EDGES), ("w2309_01", (20.0,)), ("i30c9_fake", (20.0,)) if not quick else ("w2309_01", ())):
+        for to in tos:
+            sc.append({"qos_mode": False, "flat": True, "callers": [caller(cmd, timeout=to)], "dev": hard})
+    # packets held in the air while timers fire ('late'): at most one held at a time
+    for to in (20.0,) if quick else (0.5001, 1.5001, 20.0):
+        sc.append({"qos_mode": False, "flat": True, "max_held": 1, "callers": [caller("rq30c9_01", timeout=to)], "dev": ("drop", "dup", "late")})
+    if not quick:
+        sc.append({"qos_mode": False, "flat": True, "max_held": 1, "callers": [caller("rq30c9_01", timeout=20.0)], "dev": ("drop", "dup", "late", "wfail", "disc")})
+        sc.append({"qos_mode": False, "flat": True, "callers": [caller("rq30c9_01", timeout=20.0), caller("w2309_02", timeout=20.0)], "dev": ("drop", "dup", "disc")})
+        sc.append({"qos_mode": False, "flat": True, "callers": [caller("rq30c9_01", timeout=1.5001), caller("rq30c9_01", timeout=20.0, start="q")], "dev": ("drop", "dup", "call")})
+    return sc
+
+
 def run(ctx) -> None:
     sc = scenarios(ctx.quick)
     total, byD = QC.drive(ctx, PROPERTY, sc)
+    btot, bviol, bper, bout, audits, bad = QC.bfs(ctx, PROPERTY, bfs_scenarios(ctx.quick))
+    for k, v in sorted(bviol.items()):
+        ctx.vcount[k] = ctx.vcount.get(k, 0) + v["count"]
+        ctx.violation(k, v["what"], v["replay"])
+    ctx.nviol_total = getattr(ctx, "nviol_total", 0) + sum(v["count"] for v in bviol.values())
     ctx.coverage.update(
-        states=total.nodes,
-        transitions=max(1, total.nodes - len(sc)),
-        traces_validated_against_impl=total.executions,
+        states=total.nodes + btot["states"],
+        transitions=max(1, total.nodes - len(sc)) + btot["transitions"],
+        traces_validated_against_impl=total.executions + btot["transitions"],
+        state_hashing={"scenarios": bper, "states": btot["states"], "transitions": btot["transitions"], "terminal_states": btot["terminal"], "distinct_terminal_outcomes": bout, "merge_audits": audits, "merge_audits_failed": bad, "scenarios_capped": btot["capped"]},
         executions=total.executions,
         scenarios=len(sc),
         executions_by_deviation_bound={str(k): v for k, v in sorted(byD.items())},
@@ -78,11 +101,15 @@ def run(ctx) -> None:
         distinct_outcomes=len(total.outcomes),
         deviations_taken=dict(total.actions),
         determinism_audits=total.audited,
-        caps_hit=0,
+        caps_hit=btot["capped"],
         exhaustive=True,
         samples=total.samples[:3],
         rule="every schedule of each scenario with total deviation cost <= D (stateless DFS with prefix replay on a fresh "
-        "real PortProtocol/ProtocolContext); states = distinct schedule prefixes (tree nodes); every trace IS an execution of the implementation",
+        "real PortProtocol/ProtocolContext); states = distinct schedule prefixes (tree nodes); every trace IS an execution of the implementation. "
+        "state_hashing: breadth-first search with state hashing over the same real world (a state = canonical form of FSM state, queue, ready callbacks, "
+        "timers relative to now, callers' results, packets in the air, link flags; expanded by replaying its history on a fresh world): ALL schedules "
+        "with any NUMBER of deviations of the kinds listed per scenario; oracle at every quiescent state (incl. the probe command) and on every transition "
+        "(no loop exception / tripped assertion / deadlock); sampled merged pairs are run on and must end alike",
     )
     ctx.assumptions += [
         "loop lateness <= 1 ms (W); exact timer ties keep asyncio's (when, seq) order",
@@ -92,4 +119,6 @@ def run(ctx) -> None:
 
 
 def replay(rep: dict):
+    if rep.get("world") == "qos-bfs":
+        return QC.bfs_replay(PROPERTY, rep)
     return QC.replay(PROPERTY, rep)
